@@ -17,7 +17,9 @@ func CompileToGetCodeSet(ctx *RuntimeContext, typeptr uintptr) (*OpcodeSet, erro
 			return nil, err
 		}
 		verifSlot(false, 0, typeptr, codeSet)
-		return getFilteredCodeSetIfNeeded(ctx, codeSet)
+		filtered, err := getFilteredCodeSetIfNeeded(ctx, codeSet)
+		verifProgram(typeptr, filtered)
+		return filtered, err
 	}
 	index := (typeptr - typeAddr.BaseTypeAddr) >> typeAddr.AddrShift
 	setsMu.RLock()
@@ -29,6 +31,7 @@ func CompileToGetCodeSet(ctx *RuntimeContext, typeptr uintptr) (*OpcodeSet, erro
 			return nil, err
 		}
 		setsMu.RUnlock()
+		verifProgram(typeptr, filtered)
 		return filtered, nil
 	}
 	setsMu.RUnlock()
@@ -45,5 +48,6 @@ func CompileToGetCodeSet(ctx *RuntimeContext, typeptr uintptr) (*OpcodeSet, erro
 	setsMu.Lock()
 	cachedOpcodeSets[index] = codeSet
 	setsMu.Unlock()
+	verifProgram(typeptr, filtered)
 	return filtered, nil
 }
